@@ -49,7 +49,7 @@ def parseLen (s : String) : Option Int :=
     | none => none
 
 def fnv (b : List Byte) : Nat :=
-  b.foldl (fun h x => ((h ^^^ x.toNat) * 16777619) % 4294967296) 2166136261
+  (b.foldl (fun (h : UInt32) x => (h ^^^ x.toUInt32) * 16777619) 2166136261).toNat
 
 def hex8 (n : Nat) : String :=
   String.ofList ((List.range 8).reverse.map fun i => hexDigit ((n / 16 ^ i) % 16))
